@@ -401,6 +401,88 @@ def uninterpreted(name, *args):
     return wrap(out, F64)
 
 
+
+# ---------------------------------------------------------------------------------------
+# promax / varimax contract stub (model-level harnesses; the kernels themselves are executed in C11)
+
+
+def promax_stub(X, power=1, max_iter=1000, rtol=1e-8, compute=True):
+    """contract of xeofs.linalg._numpy._rotation._promax:
+         Xrot = X @ R,  R unitary (power == 1) or merely invertible (power > 1),  phi = (R^H R)^-1
+    witness values come from the real routine on the witness value of X."""
+    from xeofs.linalg._numpy import _rotation as rot
+
+    if not isinstance(X, SymArray):
+        return PROMAX_REAL(X, power=power, max_iter=max_iter, rtol=rtol, compute=compute)
+    c = cur()
+    Xo = obj(X)
+    p, m = Xo.shape
+    if m < 2:
+        raise ValueError("Cannot rotate {:} modes (columns), but must be 2 or more.".format(m))
+    cplx = reported_dtype(X).kind == "c"
+    X0 = witness(X)
+    Xr0, R0, phi0 = PROMAX_REAL(X0, power=power, max_iter=1000, rtol=1e-10, compute=True)
+    idn = len(c.caches.setdefault("promax", {}))
+    c.caches["promax"][idn] = True
+    R = sym_array((m, m), f"R{idn}", cplx, np.asarray(R0), kind="stub")
+    Ro = obj(R)
+    tag = f"promax#{idn}"
+    if power == 1:
+        for a in range(m):
+            for b in range(a, m):
+                t1 = Sym.of(0)
+                t2 = Sym.of(0)
+                for l in range(m):
+                    t1 = t1 + Ro[l, a].conjugate() * Ro[l, b]
+                    t2 = t2 + Ro[a, l] * Ro[b, l].conjugate()
+                c.assume("eq", (t1 - (1 if a == b else 0)).p, f"{tag}: R^H R = I")
+                c.assume("eq", (t2 - (1 if a == b else 0)).p, f"{tag}: R R^H = I")
+        phi = np.eye(m)
+        if cplx:
+            phi = phi.astype(complex)
+    else:
+        phi = sym_array((m, m), f"phi{idn}", cplx, np.asarray(phi0), kind="stub")
+        G = np.conjugate(R).T @ R
+        PG = obj(phi @ G)
+        for a in range(m):
+            for b in range(m):
+                c.assume("eq", (PG[a, b] - (1 if a == b else 0)).p, f"{tag}: phi (R^H R) = I")
+    Xrot = X @ R
+    c.stub_log.append({"stub": "promax", "shape": [p, m], "power": power, "R": R, "kwargs": {"power": power, "max_iter": max_iter, "rtol": rtol, "compute": compute}})
+    return Xrot, R, phi
+
+
+PROMAX_REAL = None
+
+
+# ---------------------------------------------------------------------------------------
+# sign convention (assume-guarantee): xeofs.utils.xarray_utils.get_deterministic_sign_multiplier
+# is replaced by its contract in configurations that do not study the sign itself; the real function
+# is verified against this contract by its own harness (C15, sign-convention obligations), and the
+# base configurations of every property run it unstubbed.
+
+SIGN_REAL = None
+
+
+def sign_multiplier_stub(data, dim):
+    import xarray as xr
+
+    if not isinstance(data.data, SymArray) or cur().options.get("sign", "stub") != "stub":
+        return SIGN_REAL(data, dim)
+    c = cur()
+    w = witness(data.data)
+    if np.iscomplexobj(w) and not reported_dtype(data.data).kind == "c":
+        w = w.real
+    ref = SIGN_REAL(data.copy(data=w), dim)
+    idn = len(c.caches.setdefault("sign", {}))
+    c.caches["sign"][idn] = True
+    vals = np.asarray(ref.values, dtype=float)
+    sg = sym_array(vals.shape, f"sg{idn}", False, vals, kind="stub")
+    for x in sg.a.flat:
+        c.assume("eq", (x * x - 1).p, "sign contract: sigma^2 = 1")
+    c.stub_log.append({"stub": "get_deterministic_sign_multiplier", "shape": list(vals.shape)})
+    return ref.copy(data=sg)
+
 # ---------------------------------------------------------------------------------------
 # installation: module-attribute patches for names that xeofs modules imported directly
 
@@ -436,7 +518,7 @@ _statsmodels_shim()
 
 
 @contextlib.contextmanager
-def installed():
+def installed(promax=True):
     """patch the names xeofs modules bound at import time"""
     import xeofs.linalg.decomposer as dec
 
@@ -455,6 +537,23 @@ def installed():
         patch(nsvd, "complex_svd", svds_stub)
     except Exception:
         pass
+    global SIGN_REAL
+    import xeofs.utils.xarray_utils as xu
+
+    if SIGN_REAL is None:
+        SIGN_REAL = xu.get_deterministic_sign_multiplier
+    for modname in ("xeofs.linalg.decomposer", "xeofs.single.eof_rotator", "xeofs.cross.cpcca_rotator"):
+        try:
+            patch(importlib.import_module(modname), "get_deterministic_sign_multiplier", sign_multiplier_stub)
+        except Exception:
+            pass
+    if promax:
+        global PROMAX_REAL
+        import xeofs.linalg.rotation as rotmod
+        import xeofs.linalg._numpy._rotation as nrot
+
+        PROMAX_REAL = nrot._promax
+        patch(rotmod, "_promax", promax_stub)
     try:
         yield
     finally:
